@@ -184,6 +184,23 @@ def run_case(case, schedule, opts):
                 controller, comps = R.new_controller(exp, initial_stage=rs)
                 ctx.controller = controller
                 R.run_stages(exp, controller, REC, outcomes, first=rs)
+        # what the launcher does when the stage loop has returned: wait until every component's state stream has completed
+        if all(o['result'] == 'ok' for o in outcomes):
+            import threading
+            joined = threading.Event()
+            try:
+                obs = ctx.controller.workflowIsComplete
+                if obs is None:
+                    joined.set()
+                else:
+                    obs.subscribe(on_completed=joined.set, on_error=lambda e: joined.set())
+                if not joined.wait(600.0):
+                    V('controller:completion-of-the-workflow-never-observed', {'restart_stage': case.get('restart_stage')})
+            except simk.SimStop:
+                raise
+            except Exception as e:
+                V('controller:completion-of-the-workflow-cannot-be-observed',
+                  {'error': repr(e)[:300], 'restart_stage': case.get('restart_stage')})
     except simk.SimStop as e:
         stop = e.reason
     K.freeze()
